@@ -62,8 +62,10 @@ SUPPORTED = [
     "abc", r"a\.b\\", r"\d", r"\w", ".", "a.c", "[abc]", "[a-c]", "[^a-c]", r"[\d_]", r"[^\d]", r"[^#\d]", r"[^-.\w]", r"[^\w#]",
     "[a-cx-z0]", "[^a]", "(ab)", "(?:ab|c)", "(?P<n>a)b", "a|b|cd", "a*", "a+", "a?", "a{2}", "a{2,}", "a{1,3}", "a{5,}",
     "a*?", "a+?", "a??", "a{1,2}?", "^ab$", "^a*$", "^.$", "(ab|c)+", "[a-c]{1,3}x?", r"^a*?[\d_]{2}$", "(a|b)(c|d)", "((a))",
-    r"\d{2}-\w", "(?:a|[bc])d", "x(?:ab)*y", "[.]", r"[\]a]", r"\-\+", "a|", "(a|bc)?d", r"[0-9a-f]{2}", ".{2}", r"[^\d\w]", "[a-a]", r"\w\W"[:2],
+    r"\d{2}-\w", "(?:a|[bc])d", "x(?:ab)*y", "[.]", r"[\]a]", r"\-\+", "a|", "(a|bc)?d", r"[0-9a-f]{2}", ".{2}", r"[^\d\w]", "[a-a]", r"\w\W"[:2], "[\u0100-\uf8ff]", "[\ud7f0-\ue00f]x", "[\u0400-\u04ff]{2}",
 ]
+# constructs after which the SAME character can follow: a generator that silently treats them as supported yields non-matches
+UNSUPPORTED_EXTRA = ["a*+a", "a++[ab]", "a?+a", "[0-9]++[0-9a-f]", "x*+[a-x]"]
 UNSUPPORTED_ATOMS = [r"\s", r"\S", r"\D", r"\W", "(?=a)", "(?!a)", "(?<=a)", "(?<!a)", r"(b)\1", "(?>a)", "a*+", r"[\s]", r"[^\S]", r"[\D]"]
 COVER = {"abc": ("nodraw",), r"a\.b\\": ("nodraw",), "(ab)": ("nodraw",), "(?P<n>a)b": ("nodraw",), "^ab$": ("nodraw",), "((a))": ("nodraw",),
          r"\-\+": ("nodraw",), "[.]": ("nodraw",)}
@@ -110,6 +112,10 @@ def harnesses(tier, seed, active_kf=()):
             out.append(mk("C09.unsupported.%03d" % n, TAPE, UNSUP.format(pat=p), covers=("refused",), pre=TPRE, timeout=60 * k,
                           functions=FUNCS, bounds=BOUNDS, meta={"pattern": p}))
             n += 1
+    for p in UNSUPPORTED_EXTRA:
+        out.append(mk("C09.unsupported.%03d" % n, TAPE, UNSUP.format(pat=p), covers=("refused",), pre=TPRE, timeout=60 * k,
+                      functions=FUNCS, bounds=BOUNDS, meta={"pattern": p}))
+        n += 1
     return out
 
 
